@@ -37,6 +37,8 @@ const DOCS: &[(&str, Kind, &str)] = &[
     ("syntax_error", Kind::SyntaxError, "a: \"unterminated\nb: [1]\n"),
     ("unterminated_flow", Kind::SyntaxError, "{a: 1, b: [1, 2\n"),
     ("comments", Kind::Valid, "a: 6 # c\nb: [6] # d\n# trailing\n"),
+    ("container_anchor", Kind::Valid, "a: 7\nb: &y [7, 8]\n"),
+    ("alias_to_earlier_container", Kind::TypeError, "a: 9\nb: *y\n"), // recoverable parser error, like an unknown scalar alias
 ];
 
 /// second family (former finding F20): a fixed-arity root type and documents with surplus elements
